@@ -21,10 +21,13 @@ Definition entry_task (lk : lock) (e : entry Q) : nat := task_of_fut lk (Z.to_na
 Lemma lock_waiter_tasks_eq lk : lock_waiter_tasks lk = map (entry_task lk) (arr (lpq lk)).
 Proof. reflexivity. Qed.
 
-(* every entry of lock l is keyed by the current effective priority of its task
+(* the waiter of an entry is still waiting: its future is pending *)
+Definition live (s : st) (e : entry Q) : Prop := fdone s (Z.to_nat (eobj e)) = false.
+(* every live entry of lock l is keyed by the current effective priority of its task
    (0 for a plain task), up to equality of rationals *)
 Definition keyed (s : st) (l : nat) : Prop :=
-  forall e, In e (arr (lpq (getl s l))) -> (epri e == wprio s (entry_task (getl s l) e))%Q.
+  forall e, In e (arr (lpq (getl s l))) -> live s e ->
+            (epri e == wprio s (entry_task (getl s l) e))%Q.
 
 (* a is served before b: more urgent, or equally urgent and arrived earlier *)
 Definition before (s : st) (l : nat) (a b : entry Q) : Prop :=
@@ -152,44 +155,48 @@ Qed.
 (* ------------------------------------------------------------ with tracked keys *)
 Lemma keyed_before s l a b :
   keyed s l -> In a (arr (lpq (getl s l))) -> In b (arr (lpq (getl s l))) ->
-  entry_lt qltb a b = true -> before s l a b.
+  live s a -> live s b -> entry_lt qltb a b = true -> before s l a b.
 Proof.
-  intros K Ha Hb Hlt. apply elt_q_true in Hlt. pose proof (K _ Ha) as Ka. pose proof (K _ Hb) as Kb.
+  intros K Ha Hb La Lb Hlt. apply elt_q_true in Hlt.
+  pose proof (K _ Ha La) as Ka. pose proof (K _ Hb Lb) as Kb.
   unfold before. cbv zeta. destruct Hlt as [H|[H1 H2]]; [left|right; split; auto]; lra.
 Qed.
 
-(* C12_handover: when the keys are up to date, the woken waiter is the
-   (effective priority, arrival)-least one *)
+(* C12_handover: when the keys of the live entries are up to date, the woken waiter is
+   the (effective priority, arrival)-least live one *)
 Theorem handover_by_eprio s l f :
   PQInv (lpq (getl s l)) -> keyed s l ->
   fstate_ (getf (wake_up_first_p s l) f) <> fstate_ (getf s f) ->
   exists head rest,
     arr (lpq (getl s l)) = head :: rest /\ f = Z.to_nat (eobj head) /\
+    fstate_ (getf s f) = FPending /\
     fstate_ (getf (wake_up_first_p s l) f) = FResult 1 /\
-    (forall e, In e rest -> before s l head e) /\
+    (forall e, In e rest -> live s e -> before s l head e) /\
     (forall g, In g (pq_objs (lpq (getl s l))) -> woken s g = false).
 Proof.
   intros Hq K Hch.
-  destruct (handover_is_heap_min s l f Hq Hch) as (head & rest & Ea & Ef & _ & Er & Hmin & Hnw & _).
+  destruct (handover_is_heap_min s l f Hq Hch) as (head & rest & Ea & Ef & Ep & Er & Hmin & Hnw & _).
   exists head, rest. repeat split; auto.
-  intros e He. apply keyed_before; auto; rewrite Ea; simpl; auto.
+  intros e He Le. apply keyed_before; auto; try (rewrite Ea; simpl; auto).
+  unfold live, fdone. rewrite <- Ef, Ep. reflexivity.
 Qed.
 
-(* C12_plain_fifo: with only plain tasks queued (keys 0), the earliest arrival is woken *)
+(* C12_plain_fifo: with only plain tasks queued (keys 0), the earliest arrival among the
+   live waiters is woken *)
 Theorem handover_plain_fifo s l f :
   PQInv (lpq (getl s l)) -> keyed s l ->
   (forall e, In e (arr (lpq (getl s l))) -> is_prio_task s (entry_task (getl s l) e) = false) ->
   fstate_ (getf (wake_up_first_p s l) f) <> fstate_ (getf s f) ->
   exists head rest,
     arr (lpq (getl s l)) = head :: rest /\ f = Z.to_nat (eobj head) /\
-    (forall e, In e rest -> (eseq head < eseq e)%Z).
+    (forall e, In e rest -> live s e -> (eseq head < eseq e)%Z).
 Proof.
   intros Hq K Hpl Hch.
-  destruct (handover_by_eprio s l f Hq K Hch) as (head & rest & Ea & Ef & _ & Hb & _).
-  exists head, rest. repeat split; auto. intros e He.
+  destruct (handover_by_eprio s l f Hq K Hch) as (head & rest & Ea & Ef & _ & _ & Hb & _).
+  exists head, rest. repeat split; auto. intros e He Le.
   assert (Hz : forall x, In x (arr (lpq (getl s l))) -> wprio s (entry_task (getl s l) x) = 0%Q).
   { intros x Hx. specialize (Hpl _ Hx). unfold is_prio_task in Hpl. unfold wprio.
     destruct (tprio (gett s _)); [discriminate|reflexivity]. }
-  destruct (Hb _ He) as [H|[_ H]]; auto.
+  destruct (Hb _ He Le) as [H|[_ H]]; auto. unfold before in H. cbv zeta in H.
   rewrite !Hz in H by (rewrite Ea; simpl; auto). lra.
 Qed.
